@@ -47,6 +47,8 @@ def _jobs(tier):
         if tier == "quick" and proc == "NC" and pto == 3 and nf in (3, 4):
             continue
         jobs.append(("flavour", dict(obs=f"{kind}_total", process=proc, fns="ZM-VFNS", nfff=4, nf=nf, pto=pto, ren_sv=(pto == 1), fact_sv=(pto == 1))))
+    for (a_, b_), (proc, pr), pto in itertools.product([("F2_total", "F2_light"), ("FL_total", "F2_total")], [("NC", "electron"), ("EM", "electron")], [1, 2]):
+        jobs.append(("flavour-history", dict(first=a_, second=b_, process=proc, projectile=pr, pto=pto)))
     # flavour-tagged observables of massless quarks: the *other* active quarks of equal charge are still interchangeable
     for kind, (fl, hq), proc, nf, pto in itertools.product(["F2", "F3"] if tier == "quick" else kinds, [("charm", 4), ("bottom", 5)], ["EM", "NC"], [5, 6], [2, 3]):
         if tier == "quick" and ((proc == "EM" and kind == "F3") or (nf == 6 and pto == 3)):
@@ -124,6 +126,26 @@ def _run(job):
                         if not O.same(x, y):
                             bad.append((key, s * q1, j, f"row {s*q1} != row {s*q2}: " + O.diff_text(x, y)))
             what = "rows of equal-charge active quarks identical"
+        elif kind == "flavour-history":
+            # the same relation at a point that the runner serves AFTER points with fewer active flavours (and after an earlier point with
+            # the same number): whatever the runner keeps between points must not single out a quark
+            from . import c14
+
+            base = dict(process=kw["process"], projectile=kw["projectile"], fns="ZM-VFNS", nfff=4, pto=kw["pto"], tmc=0, ren_sv=True, fact_sv=True)
+            try:
+                runner, outs = c14.fold_history(proj, base, [(kw["first"], [4]), (kw["second"], [1, 4])], weights="full")  # Q2 = 30 (nf 5); 10 (nf 4), 30 (nf 5)
+            except (A.Undecided, S.Raised) as e:
+                return ("fold", "undecided" if isinstance(e, A.Undecided) else "raised", str(e)[:140])
+            pt = outs[0].store[kw["second"]][-1]
+            rows = [22, -6, -5, -4, -3, -2, -1, 21, 1, 2, 3, 4, 5, 6]
+            for key, (vals, errs) in sorted(pt.attrs["orders"].items()):
+                for q1, q2 in [(1, 3), (1, 5), (3, 5), (2, 4)]:
+                    for s_ in (1, -1):
+                        for j, (x, y) in enumerate(zip(vals.data[rows.index(s_ * q1)], vals.data[rows.index(s_ * q2)])):
+                            n += 1
+                            if not O.same(x, y):
+                                bad.append((key, s_ * q1, j, f"row {s_*q1} != row {s_*q2}: " + O.diff_text(A.to_rat(x), A.to_rat(y))))
+            what = "rows of equal-charge active quarks identical at the last point (nf = 5) of a run that served nf = 5, 4, 5"
         else:
             return ("fold", "undecided", "unknown job")
     except O.FoldFailure as f:
